@@ -53,6 +53,11 @@ where
     pub fn set_rx_window_buffer(&mut self, buffer: u32) {
         self.rx_window_buffer = buffer;
     }
+    /// Read-only verification hook (`--cfg lora_rs_verif`): the wrapped physical layer
+    #[cfg(lora_rs_verif)]
+    pub fn verif_lora(&self) -> &LoRa<RK, DLY> {
+        &self.lora
+    }
 }
 
 /// Provide the timing values
